@@ -234,7 +234,7 @@ func (u *Unmarshaler) Unmarshal(serialized []byte) (*Biscuit, error) {
 var ErrUndeclaredSymbol = errors.New("biscuit: block refers to an undeclared symbol")
 
 // checkDeclaredSymbols verifies that every string a block refers to (predicate names,
-// string terms, also inside sets and expressions) is declared by the time the block is
+// string terms, variable names, also inside sets and expressions) is declared by the time the block is
 // read: symbols holds the default table extended by the tables of the blocks up to and
 // including this one. Otherwise the index would be resolved against whatever a later
 // block declares, and appending a block could change what an earlier block means.
@@ -250,6 +250,12 @@ func checkDeclaredSymbols(block *Block, symbols *datalog.SymbolTable) error {
 		switch v := t.(type) {
 		case datalog.String:
 			return known(v)
+		case datalog.Variable:
+			// variable names live in the same table: an unnamed variable would be given the
+			// placeholder name of its number, and a name of its own once a later block
+			// declares enough symbols, so that two variables of one rule could be the same
+			// variable before an attenuation and different ones after it
+			return known(datalog.String(v))
 		case datalog.Set:
 			for _, e := range v {
 				if !term(e) {
